@@ -179,9 +179,11 @@ class World:
         self.factory = self._inst("factory", "owner", {"pair_code_id": self.codes["pair"], "token_code_id": self.codes["cw20"]}, admin="owner")
         self.router = self._inst("router", "owner", {"halo_factory": self.factory}, admin="owner")
         self.tokens = []
+        # in some worlds one traded token is not cw20-base but another implementation of the cw20 standard (own storage layout)
+        self.ltoken_at = rng_.randrange(n_cw20) if rng_.random() < 0.3 else -1
         for i in range(n_cw20):
             dec = rng_.choice([0, 6, 6, 8, 18])
-            t = self._inst("cw20", "owner", {
+            t = self._inst("ltoken" if i == self.ltoken_at else "cw20", "owner", {
                 "name": "token%d" % i, "symbol": "TK" + "ABCDEFG"[i], "decimals": dec,
                 "initial_balances": [{"address": a, "amount": str(BAL)} for a in ACTORS if a != "recv"],
                 "mint": None})
